@@ -656,6 +656,14 @@ func execUpord(op Op) []string {
 	L := lua.NewState()
 	w := &uoWorld{L: L, probes: probes, rt: NewRefTable()}
 	L.SetGlobal("upq", L.NewFunction(w.upq))
+	if (seed+uint64(depth)+uint64(len(mode))+uint64(len(ts)))%2 == 1 {
+		// every other program runs its probes from INSIDE a coroutine: the variables the probed closures share are
+		// then open upvalues that live in another thread's registers (get/setupvalue must reach them there)
+		L.SetGlobal("upq_host", L.NewFunction(w.upq))
+		if err := L.DoString(`function upq(...) local a, n = {...}, select("#", ...) return coroutine.wrap(function() return upq_host(unpack(a, 1, n)) end)() end`); err != nil {
+			panic(err)
+		}
+	}
 	L.SetGlobal("sink", L.NewFunction(func(*lua.LState) int { return 0 }))
 	done := make(chan struct{})
 	go func() {
